@@ -77,13 +77,18 @@ def run(rep, tier, seed, known, part):
                       "dicom_parser::stateful::encode::StatefulEncoder::encode_primitive_element (+ text / header encoders, as in C04)"]
     nat = native.Native()
     # instances: which optional attributes are present (bit k = OPT[k]) and a length pattern for the 4 + 6 fields
-    masks = [0, 0b111111, 0b000001, 0b100000, 0b010110, 0b101001] if tier == "quick" else list(range(64))
-    pats = [(3, 2, 1, 4, 5, 1, 2, 3, 1, 3), (2, 3, 4, 1, 2, 3, 1, 2, 2, 0)] if tier == "quick" else [(3, 2, 1, 4, 5, 1, 2, 3, 1, 3), (2, 3, 4, 1, 2, 3, 1, 2, 2, 0), (1, 1, 1, 1, 1, 1, 1, 1, 1, 1), (0, 0, 2, 2, 0, 0, 0, 0, 0, 2)]
+    A = (1, 3, 1, 3, 5, 1, 3, 1, 3, 1)      # every length odd: each field needs its padding byte counted
+    B = (2, 2, 4, 2, 2, 4, 2, 2, 2, 2)      # every length even
+    C = (3, 2, 1, 4, 5, 1, 2, 3, 1, 3)
+    D = (0, 0, 2, 2, 0, 0, 0, 0, 0, 0)      # empty strings
+    if tier == "quick":
+        insts = [(0, A), (0, B), (0b111111, A), (0b111111, B), (0b000001, A), (0b100000, A), (0b010110, C), (0b101001, [C, D][seed % 2])]
+    else:
+        insts = [(m, p_) for m in range(64) for p_ in (A, B, C, D)]
     paths = {k: mirdump.dump(k)[0] for k in ("dicom-object", "dicom-core", "dicom-parser", "dicom-encoding")}
     try:
-        for mask in masks:
-            for pat in ([pats[(mask + seed) % len(pats)]] if tier == "quick" else pats):
-                one(rep, nat, mask, pat, paths)
+        for mask, pat in insts:
+            one(rep, nat, mask, pat, paths)
     finally:
         nat.close()
         core.EXTRA_CONTRACTS[:] = []
